@@ -71,6 +71,11 @@ def helpers(c):
     c.snapshot('near', 'lambda a, b: all(abs(x - y) <= 1e-9 for x, y in zip(a, b))')
     c.snapshot('near2', 'lambda A, B: all(near(x, y) for x, y in zip(A, B))')
     c.snapshot('sumsq', 'lambda v: v[0] * v[0] + v[1] * v[1] + v[2] * v[2]')
+    # M^T . M == I, and the determinant, of a 3x3 nested sequence
+    c.snapshot('orthonormal', 'lambda M: all(M[0][i] * M[0][j] + M[1][i] * M[1][j] + M[2][i] * M[2][j] == (1 if i == j else 0) '
+                              'for i in range(3) for j in range(i, 3))')
+    c.snapshot('det', 'lambda M: M[0][0] * (M[1][1] * M[2][2] - M[1][2] * M[2][1]) - M[0][1] * (M[1][0] * M[2][2] - M[1][2] * M[2][0]) '
+                      '+ M[0][2] * (M[1][0] * M[2][1] - M[1][1] * M[2][0])')
 
 
 def mat(c, name):
@@ -171,7 +176,7 @@ def _scale_system(n_bs, n_cf):
         c.float('factor')
         names = ['bs%d' % i for i in range(n_bs)] + ['cf%d' % i for i in range(n_cf)]
         remember(c, names)
-        c.call(SCALER + '._scale_system', bs_poses, cf_poses, c.get('factor'))
+        c.call((c.cls(SCALER), '_scale_system'), bs_poses, cf_poses, c.get('factor'))
         c.ensure('no-exception', 'raised is None')
         c.ensure('factor-returned', 'result[2] == factor')
         check_scaled(c, n_bs, n_cf, 'factor')
@@ -190,9 +195,9 @@ def scale_twice(c):
     helpers(c)
     bs_poses, cf_poses = system(c, 2, 1)
     c.float('f1'), c.float('f2')
-    c.call(SCALER + '._scale_system', bs_poses, cf_poses, c.get('f1'))
+    c.call((c.cls(SCALER), '_scale_system'), bs_poses, cf_poses, c.get('f1'))
     c.let('first', c.get('result'))
-    c.call(SCALER + '._scale_system', bs_poses, cf_poses, c.get('f2'))
+    c.call((c.cls(SCALER), '_scale_system'), bs_poses, cf_poses, c.get('f2'))
     c.ensure('no-exception', 'raised is None')
     check_scaled(c, 2, 1, 'f2')
     c.ensure('first-answer-still-valid', 'first[0][IDS[0]].translation.tolist() == [f1 * x for x in bs0_t] and '
@@ -217,10 +222,11 @@ def _fixed_point(n_bs, n_cf, kind):
             exp = c.snapshot('expected_arr', 'LT.np.array(expected)')
         else:
             c.let('expected_arr', exp)
+        c.snapshot('expected_vals', 'tuple(expected)')
         c.require('sumsq(actual_t) > 0')        # a reference point at the origin of the estimated system defines no scale
         names = ['bs%d' % i for i in range(n_bs)] + ['cf%d' % i for i in range(n_cf)] + ['actual']
         remember(c, names)
-        c.call(SCALER + '.scale_fixed_point', bs_poses, cf_poses, exp, actual)
+        c.call((c.cls(SCALER), 'scale_fixed_point'), bs_poses, cf_poses, exp, actual)
         c.ensure('no-exception', 'raised is None')
         c.snapshot('f', 'result[2]')
         c.ensure('factor-non-negative', 'f >= 0')
@@ -228,7 +234,7 @@ def _fixed_point(n_bs, n_cf, kind):
         check_scaled(c, n_bs, n_cf, 'f')
         check_system_frame(c, n_bs, n_cf)
         check_pose_frame(c, ['actual'])
-        c.ensure('expected-not-modified', 'list(expected_arr) == list(expected)')
+        c.ensure('expected-not-modified', 'list(expected_arr) == list(expected_vals) and list(expected) == list(expected_vals)')
     return k
 
 
@@ -257,7 +263,7 @@ def _diagonals(n_bs, n_cf):
         c.patch(SCALER + '._calculate_mean_diagonal', c.ext('mean_diag', returns={'()': est}))
         names = ['bs%d' % i for i in range(n_bs)] + ['cf%d' % i for i in range(n_cf)]
         remember(c, names)
-        c.call(SCALER + '.scale_diagonals', bs_poses, cf_poses, samples, c.get('expected_diagonal'))
+        c.call((c.cls(SCALER), 'scale_diagonals'), bs_poses, cf_poses, samples, c.get('expected_diagonal'))
         c.ensure('no-exception', 'raised is None')
         c.ensure('estimate-taken-once-from-the-inputs',
                  'len(trace) == 1 and trace[0][0] == "mean_diag" and len(trace[0][1]) == 3 and trace[0][1][0] is bs_poses '
@@ -298,7 +304,7 @@ def _mean_diagonal(n_cf, n_bs):
         samples = [c.new(LT + ':LhCfPoseSample', 0.0, c.dict([(BS_IDS[b], vec[s][b]) for b in range(n_bs)])) for s in range(n_cf)]
         c.patch(SCALER + '.calc_intersection_distance',
                 c.ext('dist', returns={'()': seq_returns([c.snapshot('_d', 'LT.np.float64(dists[%d])' % i) for i in range(n)])}))
-        c.call(SCALER + '._calculate_mean_diagonal', bs_poses, cf_poses, c.list(samples))
+        c.call((c.cls(SCALER), '_calculate_mean_diagonal'), bs_poses, cf_poses, c.list(samples))
         c.ensure('no-exception', 'raised is None')
         c.ensure('one-distance-per-diagonal', 'len(trace) == %d and all(e[0] == "dist" and len(e[2]) == 0 for e in trace)' % n)
         i = 0
@@ -331,12 +337,12 @@ def intersection_homogeneous(c):
     vector = c.ext('vector', attrs={'cart': c.snapshot('cart_arr', 'LT.np.array(cart)')})
     # the ray is not parallel to the deck plane (otherwise numpy divides by zero: inf/nan, no intersection)
     c.require('LT.np.dot(LT.np.dot(bs.rot_matrix, cart), LT.np.dot(cf.rot_matrix, (0.0, 0.0, 1.0))) != 0')
-    c.call(SCALER + '.calc_intersection_point', vector, bs, cf)
+    c.call((c.cls(SCALER), 'calc_intersection_point'), vector, bs, cf)
     c.ensure('no-exception', 'raised is None')
     c.let('p1', c.get('result'))
     c.call((bs, 'scale'), c.get('s'))
     c.call((cf, 'scale'), c.get('s'))
-    c.call(SCALER + '.calc_intersection_point', vector, bs, cf)
+    c.call((c.cls(SCALER), 'calc_intersection_point'), vector, bs, cf)
     c.ensure('no-exception-scaled', 'raised is None')
     for i in range(3):
         c.ensure('component-%d-scaled' % i, 'result[%d] == s * p1[%d]' % (i, i))
@@ -369,8 +375,8 @@ def points(c, name, n):
 
 
 def bounded_inputs(c, names):
-    """|coordinate| <= 10 m, |matrix entry| <= 1 (true of every rotation matrix): keeps the native replay of a
-    counterexample well inside the 1e-9 tolerance of the post-conditions"""
+    """|coordinate| <= 10 (metres; matrix entries: every rotation matrix has entries in [-1, 1]): keeps the native
+    replay of a counterexample well inside the 1e-9 tolerance of the post-conditions"""
     for n in names:
         c.require('all(-10 <= x <= 10 for x in %s)' % n)
 
@@ -395,10 +401,10 @@ def _align(n_bs, n_x, n_p):
         c.patch(ALIGNER + '._find_transformation', c.ext('find', returns={'()': raw}))
         names = ['bs%d' % i for i in range(n_bs)] + ['raw']
         remember(c, names)
-        c.call(ALIGNER + '.align', c.get('origin'), x_axis, xy_plane, bs_poses)
+        c.call((c.cls(ALIGNER), 'align'), c.get('origin'), x_axis, xy_plane, bs_poses)
         c.ensure('no-exception', 'raised is None')
         c.ensure('least-squares-consulted-once-with-the-samples',
-                 'len(trace) == 1 and trace[0][0] == "find" and len(trace[0][1]) == 3 and trace[0][1][0] is origin and '
+                 'len(trace) == 1 and trace[0][0] == "find" and len(trace[0][1]) == 3 and trace[0][1][0] == origin and '
                  'trace[0][1][1] is x_axis and trace[0][1][2] is xy_plane and len(trace[0][2]) == 0')
         c.ensure('result-shape', 'isinstance(result, tuple) and len(result) == 2 and isinstance(result[0], dict) and '
                                  'typename(result[1]) == "Pose"')
@@ -418,6 +424,37 @@ def _align(n_bs, n_x, n_p):
 
 for _s in ((1, 1, 1), (2, 1, 1), (2, 2, 2), (3, 1, 2)):
     _align(*_s)
+
+
+# ------------------------------------------------------------------------- rigidity of one transformation
+
+@contract('C16', 'Pose.rotate_translate_pose.isometry', [POSE + '.rotate_translate_pose'], float_mode='R',
+          clause='applying one transformation T to two poses changes their squared distance by exactly d^T (T.R^T T.R - I) d '
+                 '(d the difference of the input positions) and their relative orientation a.R^T b.R by a.R^T (T.R^T T.R - I) b.R: '
+                 'nothing when T.R is orthonormal (with align.one_transformation.*: distances and relative orientations between '
+                 'base stations are preserved by a rigid transformation)')
+def isometry(c):
+    helpers(c)
+    T, a, b = pose(c, 'T'), pose(c, 'a'), pose(c, 'b')
+    c.call((T, 'rotate_translate_pose'), a)
+    c.ensure('no-exception-a', 'raised is None')
+    c.let('a2', c.get('result'))
+    c.call((T, 'rotate_translate_pose'), b)
+    c.ensure('no-exception-b', 'raised is None')
+    c.let('b2', c.get('result'))
+    c.snapshot('d_in', '[a_t[i] - b_t[i] for i in range(3)]')
+    c.snapshot('d_out', '[a2.translation.tolist()[i] - b2.translation.tolist()[i] for i in range(3)]')
+    c.snapshot('G', '[[T_R[0][k] * T_R[0][l] + T_R[1][k] * T_R[1][l] + T_R[2][k] * T_R[2][l] - (1 if k == l else 0) for l in range(3)] '
+                    'for k in range(3)]')          # T.R^T T.R - I  (zero iff T.R is orthonormal)
+    c.ensure('distance-change-is-the-quadratic-form-of-RtR-minus-I',
+             'sumsq(d_out) - sumsq(d_in) == sum(d_in[k] * d_in[l] * G[k][l] for k in range(3) for l in range(3))')
+    c.snapshot('Ra2', 'a2.rot_matrix.tolist()')
+    c.snapshot('Rb2', 'b2.rot_matrix.tolist()')
+    for i in range(3):
+        # relative orientation a.R^T b.R: changes by a.R^T (T.R^T T.R - I) b.R
+        c.ensure('relative-orientation-change-row-%d' % i,
+                 'all(sum(Ra2[k][%d] * Rb2[k][j] for k in range(3)) - sum(a_R[k][%d] * b_R[k][j] for k in range(3)) == '
+                 'sum(a_R[k][%d] * G[k][l] * b_R[l][j] for k in range(3) for l in range(3)) for j in range(3))' % (i, i, i))
 
 
 # ------------------------------------------------------------------------- de-flip
@@ -442,7 +479,7 @@ def _de_flip(n_bs, n_x):
         bounded_inputs(c, ['raw_t', 'probe', 'origin'] + ['raw_R[%d]' % r for r in range(3)] + ['x_axis_pts[%d]' % i for i in range(n_x)])
         names = ['bs%d' % i for i in range(n_bs)] + ['raw']
         remember(c, names)
-        c.call(ALIGNER + '._de_flip_transformation', raw, x_axis, bs_poses)
+        c.call((c.cls(ALIGNER), '_de_flip_transformation'), raw, x_axis, bs_poses)
         c.ensure('no-exception', 'raised is None')
         c.ensure('result-is-a-pose', 'typename(result) == "Pose"')
         c.snapshot('FR', 'result.rot_matrix.tolist()')
@@ -455,6 +492,7 @@ def _de_flip(n_bs, n_x):
         c.snapshot('fp', 'apply(FR, Ft, probe)')
         for i in range(3):
             c.ensure('flip-applied-after-raw-%s' % 'xyz'[i], 'abs(fp[%d] - S[%d] * rp[%d]) <= 1e-9' % (i, i, i))
+        c.ensure('proper-rotation-stays-proper', 'implies(orthonormal(raw_R), orthonormal(FR)) and det(FR) == det(raw_R)')
         c.ensure('x-axis-samples-on-positive-side', 'apply(FR, Ft, xmean)[0] >= -1e-9')
         c.ensure('first-base-station-above-floor', 'apply(FR, Ft, bs0_t)[2] >= -1e-9')
         c.snapshot('ro', 'apply(raw_R, raw_t, origin)')
